@@ -485,6 +485,9 @@ def run(ch: Checker) -> None:
     body_calls = [norm(c) for c in walk_no_nested(snd.node) if isinstance(c, ast.Call)]
     ch.check(body_calls == ['self.connection.send(data)'], 'C01.8', snd, 'send body', 'send() passes its argument to the socket unchanged', 'TcpConnection.send is no longer a plain pass-through: %s' % body_calls)
     # ---------------- C01.14 (shared)
+    ch.rule('C01.17', 'one readiness event pays for one non-blocking read: in the connection class and the event handlers a receive on a connection is not repeated on a path and not placed in a loop (relayed bytes are neither lost nor delayed by a read that no readiness event covers)', 4)
+    from .common import single_recv_check
+    single_recv_check(ch, 'C01.17')
     ch.import_rules('C05', {'C05.7': 'C01.14'}, 'the relay parses what it relays: a chunk size accepted without the range check (or rejected for a reason other than being out of range) ends the exchange mid-stream')
 
     # ---------------- C01.11 (shared)
